@@ -173,6 +173,41 @@ Proof.
   apply Inv_store_old; [apply NI | apply VN].
 Qed.
 
+(* ---------- classes delivered for deployed contracts ---------- *)
+Lemma store_registers_delivered : forall store_st, (forall s d, s_decl (store_st s d) = upd_decl (s_next s) d (s_decl s)) ->
+  forall x b h, In h (d_deliv (b_diff b)) -> get (s_decl (n_st x)) [h] = None ->
+  get (s_decl (n_st (store_node store_st x b))) [h] = Some (s_next (n_st x)).
+Proof.
+  intros store_st E x b h Hin Hn. unfold store_node. cbn [n_st]. rewrite E, get_upd_decl, Hn.
+  replace (existsb _ (d_reg (b_diff b))) with true; auto. symmetry. apply existsb_keqb_in.
+  unfold d_reg. apply in_or_app. auto.
+Qed.
+
+Lemma decl_store_new : forall s d, s_decl (store_new s d) = upd_decl (s_next s) d (s_decl s).
+Proof. reflexivity. Qed.
+Lemma decl_store_old : forall s d, s_decl (store_old s d) = upd_decl (s_next s) d (s_decl s).
+Proof. reflexivity. Qed.
+
+Lemma deliv_new_lemma : forall x b, NInv_new x -> valid_next x b = true -> sys_guard (n_st x) (b_diff b) = true ->
+  (forall h, In h (d_deliv (b_diff b)) -> get (s_decl (n_st x)) [h] = None ->
+     get (s_decl (n_st (store_new_node x b))) [h] = Some (s_next (n_st x))) /\
+  exists x', revert_new_node (store_new_node x b) = Some x' /\ s_decl (n_st x') = s_decl (n_st x).
+Proof.
+  intros x b H V G. split.
+  - intros. apply (store_registers_delivered store_new decl_store_new); auto.
+  - exists x. split; auto. apply revert_store_new_node; auto. split; auto.
+Qed.
+
+Lemma deliv_old_lemma : forall x b, NInv x -> valid_next x b = true -> sys_guard (n_st x) (b_diff b) = true ->
+  (forall h, In h (d_deliv (b_diff b)) -> get (s_decl (n_st x)) [h] = None ->
+     get (s_decl (n_st (store_old_node x b))) [h] = Some (s_next (n_st x))) /\
+  exists x', revert_old_node (store_old_node x b) = Some x' /\ s_decl (n_st x') = s_decl (n_st x).
+Proof.
+  intros x b H V G. split.
+  - intros. apply (store_registers_delivered store_old decl_store_old); auto.
+  - exists x. split; auto. apply revert_store_old_node; auto. split; auto.
+Qed.
+
 (* ---------- forks ---------- *)
 Fixpoint all_valid (store : node -> block -> node) (x : node) (A : list block) : Prop :=
   match A with
